@@ -554,6 +554,39 @@ def is_err_exit(n):
     return False
 
 
+def success_returns(body, into_closures=False):
+    """explicit `return <non-error>` nodes of a function body (not those of nested closures): early successful exits."""
+    out = []
+    stack = [body]
+    while stack:
+        n = stack.pop()
+        if not isinstance(n, dict):
+            continue
+        if n.get("k") == "closure" and not into_closures:
+            continue
+        if n.get("k") == "ret" and not is_err_exit(n):
+            out.append(n)
+        stack.extend(children(n))
+    return out
+
+
+def loop_exits(body):
+    """`continue` / `break` nodes that leave an iteration of the loop whose body is `body` (those of inner loops / closures are their own)."""
+    out = []
+    stack = [(body, False)]
+    while stack:
+        x, inner = stack.pop()
+        if not isinstance(x, dict) or x.get("k") == "closure":
+            continue
+        k = x.get("k")
+        if k in ("break", "continue") and not inner:
+            out.append(x)
+        sub = inner or k in ("for", "loop", "while")
+        for ch in children(x):
+            stack.append((ch, sub))
+    return out
+
+
 def parents_of(root, target):
     """Chain of ancestors (outermost first) of `target` (identity) inside `root`, or None."""
     for n, ps in walk_with_parents(root):
